@@ -223,6 +223,21 @@ func WorkerMain(t *testing.T) {
 				okReplay = true
 			}
 			if !okReplay {
+				// the recording itself may have been the odd one out (its replays
+				// agree with each other, not with it): execute the run afresh from
+				// its seed and ask the same of the new recording.  A scenario that
+				// is nondeterministic as such fails here again.
+				tp3 := NewSearch(seed, prop, no)
+				r3 := Execute(prop, seed, no, tp3)
+				if r3.Notes["internal_error"] == "" && r3.Notes["tape_race"] == "" && r3.Failed() == r.Failed() {
+					r4 := Execute(prop, seed, no, NewReplay(tp3.Rec, true))
+					if r4.T.Diverged == "" && r4.T.Hash() == tp3.Hash() && r4.Failed() == r3.Failed() {
+						okReplay = true
+						sum.Probes["canary-recording-was-the-odd-one-out"]++
+					}
+				}
+			}
+			if !okReplay {
 				out.emit(map[string]any{"type": "error", "run": no, "msg": "determinism canary diverged: " + diverged})
 				of.Sync()
 				os.Exit(2)
